@@ -36,6 +36,10 @@ type ProgCase struct {
 	// SharedConfig: the configuration file also carries the keys the project's other programs use (one file
 	// for the whole installation, in the style of the ntrip.json shipped with the program).
 	SharedConfig bool `json:"config_shared_with_other_programs"`
+	// Live (stdin pipe): the input stays open; after each of the first chunks the valid frames received so far
+	// must have come out on standard output (and in the record file) within five seconds - a filter on a live
+	// stream may not sit on frames until more data or the end of input arrives.
+	Live bool `json:"live"`
 }
 
 var progNo int
@@ -94,6 +98,7 @@ func checkProgram(c ProgCase, o *stats.Obs) error {
 		return int(st.Size())
 	}
 	var feed func()
+	withheld := make(chan string, 1)
 	switch c.Stdin {
 	case "file":
 		inFile := filepath.Join(dir, "stdin.bin")
@@ -117,7 +122,35 @@ func checkProgram(c ProgCase, o *stats.Obs) error {
 			stats.HarnessBug("pipe: %v", err)
 		}
 		feed = func() {
-			writeChunks(w.Write, input, c.Chunks)
+			if !c.Live {
+				writeChunks(w.Write, input, c.Chunks)
+				w.Close()
+				return
+			}
+			sent, k := 0, 0
+			writeChunks(func(p []byte) (int, error) {
+				n, err := w.Write(p)
+				sent += n
+				k++
+				if err == nil && k <= 10 {
+					wantSoFar, _, _ := appsup.ValidFrames(input[:sent])
+					if !appsup.WaitFor(5*time.Second, func() bool { return outLen() >= len(wantSoFar) }) {
+						select {
+						case withheld <- fmt.Sprintf("%d bytes sent on standard input (still open) hold %d bytes of valid frames, but only %d bytes have come out after 5 s", sent, len(wantSoFar), outLen()):
+						default:
+						}
+					}
+					if c.Record && !c.NoLogDir {
+						if !appsup.WaitFor(5*time.Second, func() bool { return len(appsup.ReadLogs(logs, "rtcmfilter.", ".rtcm")) >= len(wantSoFar) }) {
+							select {
+							case withheld <- fmt.Sprintf("%d bytes sent on standard input (still open) hold %d bytes of valid frames, but the record file has only %d after 5 s", sent, len(wantSoFar), len(appsup.ReadLogs(logs, "rtcmfilter.", ".rtcm"))):
+							default:
+							}
+						}
+					}
+				}
+				return n, err
+			}, input, c.Chunks)
 			w.Close()
 		}
 	case "tcp-reset":
@@ -173,6 +206,12 @@ func checkProgram(c ProgCase, o *stats.Obs) error {
 		o.Key = "program-no-exit"
 		return fmt.Errorf("rtcmfilter did not exit within 60 s of its input ending (stdin %s, input %x)", c.Stdin, input)
 	}
+	select {
+	case msg := <-withheld:
+		o.Key = "program-output-withheld"
+		return fmt.Errorf("the rtcmfilter program holds frames back on a live stream: %s\n input %x", msg, input)
+	default:
+	}
 	got, _ := os.ReadFile(outFile)
 	if !bytes.Equal(got, want) {
 		o.Key = "program-output"
@@ -198,6 +237,9 @@ func checkProgram(c ProgCase, o *stats.Obs) error {
 	}
 	o.NonTrivial = (frames >= 1 && others >= 1) || c.Stdin == "dir"
 	o.Class("stdin-" + c.Stdin)
+	if c.Live {
+		o.Class("live-pipe")
+	}
 	o.Class(fmt.Sprintf("display-%v/record-%v", c.Display, c.Record))
 	return nil
 }
@@ -236,6 +278,12 @@ func genProgram(t *rapid.T) ProgCase {
 	c.Stdin = rapid.SampledFrom([]string{"file", "file", "pipe", "pipe", "dir", "tcp-reset", "tcp-reset"}).Draw(t, "stdin")
 	c.NoLogDir = rapid.IntRange(0, 3).Draw(t, "noLogDir") == 1
 	c.SharedConfig = rapid.IntRange(0, 2).Draw(t, "sharedConfig") == 1
+	if c.Stdin == "pipe" && rapid.Bool().Draw(t, "live") {
+		c.Live = true
+		if len(c.Chunks) == 0 {
+			c.Chunks = []int{rapid.SampledFrom([]int{7, 40, 300}).Draw(t, "liveChunk")}
+		}
+	}
 	n := rapid.IntRange(0, 3).Draw(t, "nChunks")
 	for i := 0; i < n; i++ {
 		c.Chunks = append(c.Chunks, rapid.SampledFrom([]int{1, 3, 16, 4096}).Draw(t, "chunk"))
